@@ -48,7 +48,7 @@ class Gen:
         """Returns (items, meta).  Types are created in rank order: plain / fixed / typedef / arm
         references go to lower ranks only; optional and counted-array references may go anywhere."""
         r = self.r
-        o = dict(var_opaque_inline=True, typedef_opaque_fixed=True, typedef_opaque_bounded=True, data_default=True,
+        o = dict(opaque_bare=False, typedef_opaque_fixed=True, typedef_opaque_bounded=True, data_default=True,
                  bool_void=True, const_enum=False)
         o.update(opts or {})
         ndecl = ndecl or (3 + r.below(10))
@@ -68,7 +68,7 @@ class Gen:
             enums.append({"k": "enum", "name": self.fresh("en"), "members": mem, "sep": "," })
         dec_consts = [c for c in consts if not c["val"].startswith("0x")]
         plan = [r.choice(["struct", "struct", "struct", "union", "union", "typedef", "typedef"]) for _ in range(ndecl)]
-        names = [self.fresh({"struct": "s", "union": "u", "typedef": "t"}[k]) for k in plan]
+        names = [self.fresh({"struct": "st", "union": "un", "typedef": "td"}[k]) for k in plan]
 
         def bound(allow_empty=True):
             c = r.below(4)
@@ -94,10 +94,10 @@ class Gen:
             if c == 4:
                 return "string", r.choice([None, ["var", bound()]]), False
             if c == 5:
-                if o["var_opaque_inline"]:
+                if o["opaque_bare"] and r.chance(1, 2):
                     flags.add("K1")
-                    return "opaque", r.choice([None, ["var", bound()], ["var", bound()]]), False
-                return "opaque", ["fixed", bound(False)], False
+                    return "opaque", None, False          # bracket-less `opaque x;` (not RFC syntax; pinned by the golden tests)
+                return "opaque", ["var", bound()], False
             if c == 6:
                 return "opaque", ["fixed", bound(False)], False
             if c == 7:
@@ -134,10 +134,8 @@ class Gen:
                     arr = r.choice([None, ["var", ""]])
                     if o["typedef_opaque_bounded"] and r.chance(1, 2):
                         arr = ["var", bound(False)]
-                        flags.add("K3")
                     types.append({"k": "typedef", "ty": "opaque", "name": name, "arr": arr})
                 elif c == 2 and o["typedef_opaque_fixed"]:
-                    flags.add("F4")
                     types.append({"k": "typedef", "ty": "opaque", "name": name, "arr": ["fixed", bound(False)]})
                 else:
                     t = lower(i)
@@ -147,7 +145,9 @@ class Gen:
                         arr = r.choice([None, None, ["fixed", bound(False)], ["var", bound()]])
                         # an alias[..] of an enum or lower type is fine; var arrays may also point anywhere
                         if arr and arr[0] == "var" and r.chance(1, 2):
-                            t = anyname(i)
+                            t2 = anyname(i)
+                            if t2 != name:
+                                t = t2
                         types.append({"k": "typedef", "ty": t, "name": name, "arr": arr})
             else:
                 types.append(self.union(i, name, names, enums, consts, types, o, flags, lower))
@@ -164,7 +164,7 @@ class Gen:
         if c <= 2:
             swty, swkind = self.prim(["i32", "u32"]), "int"
         elif c == 3:
-            swty, swkind = self.prim(["i64", "u64"]), "int"
+            swty, swkind = self.prim(["i32", "u32"]), "int"
         elif c == 4:
             swty, swkind = "bool", "bool"
         elif c in (5, 6) and enums:
@@ -210,7 +210,6 @@ class Gen:
         elif d == 2 and o["data_default"]:
             b = self.arm_body(i, lower, o, flags, swkind, nonvoid=True)
             arms.append({"default": True, "labels": [], "body": b})
-            flags.add("F3")
         swvar = r.choice(["d", "disc", "kind", "sw", "type", "status"])
         return {"k": "union", "name": name, "swty": swty, "swvar": swvar, "arms": arms}
 
@@ -222,7 +221,6 @@ class Gen:
                 if not o["bool_void"]:
                     c = 5
                 else:
-                    flags.add("K8")
                     return "void"
             else:
                 return "void"
@@ -231,7 +229,7 @@ class Gen:
             return {"ty": self.prim(), "name": fn, "arr": None}
         if c == 5:
             return {"ty": "string", "name": fn, "arr": None}
-        if c == 6 and o["var_opaque_inline"]:
+        if c == 6 and o["opaque_bare"]:
             flags.add("K1")
             return {"ty": "opaque", "name": fn, "arr": None}
         t = lower(i)
